@@ -141,6 +141,22 @@ class NpProxy:
             return SymArray(_obj(x))
         return _np.asarray(x, *a, **kw)
 
+    def _fresh(self, name, fill, shape, dtype, kw):
+        # a float buffer allocated while a body is being explored may later receive symbolic values (out=, masked stores): it
+        # is born as an array of symbolic constants; integer/boolean buffers and anything outside an exploration stay NumPy's
+        if S.explorer is not None and not kw and (dtype is None or _np.dtype(dtype).kind == "f"):
+            return core.dispatch("full", (shape, core.const(fill)), {})
+        return getattr(_np, name)(shape, **({"dtype": dtype} if dtype is not None else {}), **kw)
+
+    def zeros(self, shape, dtype=None, **kw):
+        return self._fresh("zeros", 0.0, shape, dtype, kw)
+
+    def ones(self, shape, dtype=None, **kw):
+        return self._fresh("ones", 1.0, shape, dtype, kw)
+
+    def empty(self, shape, dtype=None, **kw):
+        return self._fresh("empty", 0.0, shape, dtype, kw)
+
     def full(self, shape, fill_value, *a, **kw):
         if _has_sym(fill_value):
             return core.dispatch("full", (shape, fill_value), {})
